@@ -170,6 +170,9 @@ func TestQueues(t *testing.T) {
 	par(4, func(i int) {
 		for j := 0; j < 100; j++ {
 			cq.Enqueue(job, job)
+			if i == 0 {
+				cq.Enqueue() // no jobs: only reads the counters
+			}
 		}
 	})
 	if err := cq.WaitIdle(ctx, nil); err != nil {
